@@ -250,11 +250,22 @@ func (v *Value) prettyStringInteral(rootValues []*Value, quote bool, checkCircul
 	}
 }
 
+// look a member up on the prototype. the prototypes are shared by every value
+// (and every run in the process), so hand out a private copy of the cell:
+// binding the receiver or assigning to the member must not write into them
+func (v *Value) getProtoMember(member Value) (*Cell, error) {
+	cell, err := v.Proto.GetMember(member)
+	if err != nil || cell == nil {
+		return cell, err
+	}
+	return NewCell(cell.Value), nil
+}
+
 func (v *Value) GetMember(member Value) (*Cell, error) {
 	switch v.Tag {
 	case ValueArray:
 		if member.Tag != ValueNum && v.Proto != nil {
-			return v.Proto.GetMember(member)
+			return v.getProtoMember(member)
 		}
 		index := int(*member.Num)
 		arr := v.Array
@@ -284,12 +295,12 @@ func (v *Value) GetMember(member Value) (*Cell, error) {
 			return value, nil
 		}
 		if v.Proto != nil {
-			return v.Proto.GetMember(member)
+			return v.getProtoMember(member)
 		}
 		return nil, nil
 	case ValueStr:
 		if member.Tag != ValueNum {
-			return v.Proto.GetMember(member)
+			return v.getProtoMember(member)
 		}
 		index := int(*member.Num)
 		if index < 0 || index >= len(*v.Str) {
@@ -298,7 +309,7 @@ func (v *Value) GetMember(member Value) (*Cell, error) {
 		return NewCell(NewString(string((*v.Str)[index]))), nil
 	default:
 		if v.Proto != nil {
-			return v.Proto.GetMember(member)
+			return v.getProtoMember(member)
 		}
 		return nil, nil
 	}
